@@ -52,6 +52,9 @@ def ints(w, seed=0, name="", signed=True):
         ("one", "1", "r"),
         ("minus1", "-1", "r") if signed else ("two", "2", "r"),
         ("leading0", ("00000007")[-min(w, 3) :], "r"),
+        ("plus", "+45" if w >= 3 else "+4", "r"),
+        ("plus-left", "+6", "l"),
+        ("neg-padded", "-07" if signed else "08", "r"),
         ("left", "5", "l"),
         ("full9", "9" * w, "r"),
         ("mid", str(rnd.randrange(10 ** max(w - 1, 1))), "r"),
